@@ -463,7 +463,40 @@ def ctx_of(vec) -> Dict[str, Any]:
     return {"fontfile": ff[0] if ff else None, "basefont": WIDTHS[vec[5]][1] if WIDTHS[vec[5]][0] == "std14" else None}
 
 
+# ------------------------------------------------------------------ process-wide tables
+_SNAP: Dict[str, Dict[int, str]] = {}
+
+
+def tables_changed(restore: bool = True) -> List[Tuple[str, int, Any, Any]]:
+    """EncodingDB's class-level tables are shared by every font of the process: building a font must not change them.
+    Returns [(encoding, code, before, after)] and (optionally) restores the tables so later cases stay self-contained."""
+    from pdfminer.encodingdb import EncodingDB
+
+    if not _SNAP:
+        for k, t in EncodingDB.encodings.items():
+            _SNAP[k] = dict(t)
+        return []
+    out = []
+    for k, t in EncodingDB.encodings.items():
+        if t != _SNAP[k]:
+            for c in sorted(set(t) | set(_SNAP[k])):
+                if t.get(c) != _SNAP[k].get(c):
+                    out.append((k, c, _SNAP[k].get(c), t.get(c)))
+            if restore:
+                t.clear()
+                t.update(_SNAP[k])
+    return out
+
+
+def check_tables(st, pdf: bytes) -> None:
+    ch = tables_changed()
+    if ch:
+        st.violation("C06/differences-overlay-leaks-into-shared-table", {"family": "leak", "pdf": pdf}, "shared encoding tables unchanged",
+                     [list(x) for x in ch[:8]], "EncodingDB class-level table changed by building a font")
+
+
 def run_font(vec, st) -> None:
+    tables_changed()
     try:
         pdf, model = build(vec)
     except NotAFont:
@@ -471,6 +504,7 @@ def run_font(vec, st) -> None:
         return
     ctx = ctx_of(vec)
     viol, obs = compare(pdf, model, ctx)
+    check_tables(st, pdf)
     st.traces += 1
     nt = any(m["jt"] and not m["text"].startswith("(cid:") for m in model) and any(m["adv"] for m in model)
     st.case(None, nontrivial=nt, outcome=obs)
@@ -479,8 +513,14 @@ def run_font(vec, st) -> None:
     nj = sum(1 for m in model if not m["jt"])
     if nj:
         st.not_judged["text of codes depending on unknown base / Type3 implicit base / lower-case hex names"] += nj
+    jm = None
     for sig, code, exp, ob, what in viol:
-        st.violation(sig, {"family": "font", "vec": list(vec), "desc": describe(vec), "code": code, "pdf": pdf, "model": jmodel(model), "ctx": ctx}, exp, ob, what)
+        if st.viol_counts[sig] >= st.MAX_VIOL_PER_SIG:
+            st.viol_counts[sig] += 1  # counted, not stored (the runner keeps the first few per signature and shard)
+            continue
+        if jm is None:
+            jm = jmodel(model)
+        st.violation(sig, {"family": "font", "vec": list(vec), "desc": describe(vec), "code": code, "pdf": pdf, "model": jm, "ctx": ctx}, exp, ob, what)
 
 
 # ------------------------------------------------------------------ names family
@@ -710,9 +750,14 @@ def build_share(enc, diff, order):
         fonts[key] = doc.add(f)
     allc = ser(HexStr(bytes(range(256))))
     seq = [("F1", m1), ("F2", m2)] if order == "diff-first" else [("F2", m2), ("F1", m1)]
+    if order == "plain-first":
+        # a third, separate font object equal to the plain one, built after the overlay
+        f3 = dict(doc.objs[fonts["F2"].num][1])
+        fonts["F3"] = doc.add(f3)
+        seq.append(("F3", m2))
     content = b"BT " + b" ".join(b"/%s %d Tf 10 700 Td %s Tj" % (k.encode(), FONTSIZE, allc) for k, _ in seq) + b" ET"
     pdf = page_doc(content, fonts, doc=doc)
-    return pdf, seq[0][1] + seq[1][1]
+    return pdf, [m for _, mm in seq for m in mm]
 
 
 def compare_share(pdf, model):
@@ -720,15 +765,15 @@ def compare_share(pdf, model):
         g = R.glyphs(pdf)[0]
     except Exception as e:  # noqa
         return [(f"C06/exception:{type(e).__name__}@share", -1, "512 glyphs", f"{type(e).__name__}: {e}", "two-font document raised")], ("exc",)
-    if len(g) != 512:
-        return [("C06/glyph-count", -1, 512, len(g), "two-font document")], ("count", len(g))
+    if len(g) != len(model):
+        return [("C06/glyph-count", -1, len(model), len(g), "two-font document")], ("count", len(g))
     viol = []
     for i, m in enumerate(model):
         if m["jt"] and g[i][0] != m["text"]:
             sig = classify("text", m, g[i][0], g[i][1], {})
             if m["tsrc"] in ("base", "implicit-standard"):
                 sig = "C06/differences-overlay-leaks-into-shared-table"
-            viol.append((sig, i, m["text"], g[i][0], f"glyph {i} (font {'first' if i < 256 else 'second'}, code {i % 256}, source {m['tsrc']})"))
+            viol.append((sig, i, m["text"], g[i][0], f"glyph {i} (font shown #{i // 256 + 1}, code {i % 256}, source {m['tsrc']})"))
         if not R.close(g[i][1], m["adv"]):
             viol.append(("C06/width:" + m["wsrc"], i, float(m["adv"]), g[i][1], f"glyph {i} advance"))
     return viol, tuple(x[0] for x in g)
@@ -736,8 +781,10 @@ def compare_share(pdf, model):
 
 def run_share(st) -> None:
     for enc, diff, order in share_docs():
+        tables_changed()
         pdf, model = build_share(enc, diff, order)
         viol, obs = compare_share(pdf, model)
+        check_tables(st, pdf)
         st.states += 1
         st.transitions += 1
         st.traces += 1
@@ -829,6 +876,15 @@ def replay(case):
         for v in st.violations:
             if v["case"]["encoding"] == case["encoding"] and v["case"]["code"] == case["code"]:
                 out.append({"signature": v["signature"], "expected": repr(v["expected"]), "observed": repr(v["observed"])})
+    elif fam == "leak":
+        tables_changed()
+        try:
+            R.glyphs(case["pdf"])
+        except Exception:  # noqa
+            pass
+        ch = tables_changed()
+        if ch:
+            out.append({"signature": "C06/differences-overlay-leaks-into-shared-table", "expected": "unchanged", "observed": repr(ch[:8])})
     elif fam == "share":
         viol, _ = compare_share(case["pdf"], unjmodel(case["model"]))
         for sig, i, exp, ob, what in viol:
